@@ -99,6 +99,36 @@ def build_plan(spec, rng, max_per_route=10):
     return reqs
 
 
+def host_probes(spec, m, rng):
+    """Requests aimed at domain guards: for one route per guard, hosts derived from the guard by instantiation and by
+    single edits (extra / missing label, one and two trailing dots, port, other literal, no Host header)."""
+    out = []
+    seen = set()
+    k = 500
+    for hid, h in spec["handlers"].items():
+        g = m.domain_of(hid)
+        if g is None or g in seen:
+            continue
+        seen.add(g)
+        path = instantiate(m.full_path(hid), k)
+        meth = "GET" if h["methods"] in ("ANY", "ANY_ALL") else h["methods"][0]
+        if meth == "HEAD":
+            continue
+        k += 1
+        good = host_for(g, k)
+        labels = good.split(".")
+        hosts = [good, good + ".", good + "..", good + ":8080", good + ".:443", "extra." + good, ".".join(labels[1:]),
+                 "zz" + good, good.rsplit(".", 1)[0] + ".zz", None]
+        if "{*" in g:
+            hosts += ["a.b.c." + good]
+        for host in hosts:
+            r = {"kind": "probe", "sub": "host", "method": meth, "path": path, "host": host, "fail": [], "early": [], "guard": g}
+            if host is None:
+                r["no_host"] = True
+            out.append(r)
+    return out
+
+
 def routing_probes(spec, m, rng):
     """Requests aimed at the router: wrong methods, near-miss paths, prefix-only paths, unknown paths."""
     out = []
@@ -139,6 +169,7 @@ def routing_probes(spec, m, rng):
             host = host_for(b["domain"], k)
             for p in (pfx, pfx + "/zz%d" % k, pfx + "/zz/yy"):
                 out.append({"kind": "probe", "method": rng.choice(["GET", "POST"]), "path": p, "host": host, "fail": [], "early": []})
+    out += host_probes(spec, m, rng)
     out.append({"kind": "probe", "method": "GET", "path": "/zz-unknown", "host": "verif.test", "fail": [], "early": []})
     out.append({"kind": "probe", "method": "GET", "path": "/", "host": "verif.test", "fail": [], "early": []})
     return out
